@@ -21,3 +21,8 @@ open BsVerif.Symbols
 #print axioms C17_symbols_loaded_registry
 #print axioms C17_symbols_registry_load_add
 #print axioms C17_symbols_registry_load_remove
+open BsVerif.FnPath
+#print axioms C17_fn_path_components
+#print axioms C17_fn_path_inherent_impl
+#print axioms C17_fn_templates_mangling_independent
+#print axioms C17_fn_path_nonempty
